@@ -12,7 +12,7 @@ PROP = {'lean': 'MpsProps.C17',
               'Mps.C17.duplicate_noop',
               'Mps.C17.twoparty_lifecycle', 'Mps.C17.twoparty_close_at_most_once', 'Mps.C17.twoparty_closed_iff_ended',
               'Mps.C17.twoparty_ended_is_final', 'Mps.C17.twoparty_stop_running_errors'],
- 'generated': ['Mps.C17.gen_lock_discipline', 'Mps.C17.gen_stop', 'Mps.C17.gen_out_capacity'],
+ 'generated': ['Mps.HandlerSrc.gen_handler_source_0', 'Mps.HandlerSrc.gen_handler_source_1', 'Mps.HandlerSrc.gen_handler_source_2', 'Mps.HandlerSrc.gen_handler_source_3', 'Mps.HandlerSrc.gen_handler_source_4', 'Mps.HandlerSrc.gen_handler_source_5', 'Mps.C17.gen_lock_discipline', 'Mps.C17.gen_stop', 'Mps.C17.gen_out_capacity'],
  'suites': [{'name': 'handler', 'quick': 250, 'thorough': 6000}, {'name': 'twoparty', 'quick': 200, 'thorough': 5000}, {'name': 'handlerconc', 'quick': 60, 'thorough': 1500, 'race': True},
             {'name': 'twopartyconc', 'quick': 150, 'thorough': 4000, 'race': True}],
  'race': True,
